@@ -162,7 +162,7 @@ Plat == \E loc \in Locs(cfg) : \E v \in 1..3 :
            CanPlatform(cfg, loc) /\ cfg' = StepPlatform(cfg, loc, v) /\ trail' = Append(trail, <<"platform", loc, v>>)
 LayerMap == \E loc \in Locs(cfg) :
            CanLayerMap(cfg, loc) /\ cfg' = StepLayerMap(cfg, loc) /\ trail' = Append(trail, <<"layermap", loc>>)
-LayerMapW == (trail = <<>> \/ b \in WildDeep) /\ \E loc \in Locs(cfg) : \E w \in Wild :
+LayerMapW == (IF trail = <<>> THEN TRUE ELSE b \in WildDeep) /\ \E loc \in Locs(cfg) : \E w \in Wild :
            CanLayerMap(cfg, loc) /\ \E G \in SUBSET (1..Len(RawSrc(cfg))) : \E pos \in 0..Len(RawSrc(cfg)) :
            CanLayerMapW(cfg, loc, w, G, pos) /\ cfg' = StepLayerMapW(cfg, loc, w, G, pos)
            /\ trail' = Append(trail, <<"layermapw", loc, w, SetToSeq(G), pos>>)
@@ -176,7 +176,7 @@ Nest == b \in NestB /\ trail = <<>> /\
            /\ cfg' = StepNest(cfg, loc, p, q1, q2, k1, k2, t1, t2, N)
            /\ trail' = Append(trail, <<"nest", loc, p, q1, q2, k1, k2, t1, t2>>)
 Next == /\ Len(trail) < (IF b \in Deep3 THEN 3 ELSE IF b \in Deep THEN MaxSteps ELSE 1)
-        /\ (trail = <<>> \/ (trail[1][1] # "nest" /\ (trail[1][1] = "layermapw" => b \in WildDeep)))
+        /\ (IF trail = <<>> THEN TRUE ELSE trail[1][1] # "nest" /\ (trail[1][1] = "layermapw" => b \in WildDeep))
         /\ b' = b
         /\ (Alias \/ Var \/ Tpl \/ Cond \/ Include \/ Plat \/ LayerMap \/ LayerMapW \/ Nest)
 BaseNorm == [k \in 1..Len(Base) |-> NormWhy(Base[k])]
@@ -240,11 +240,14 @@ def run_spec(wd, fam, maxsteps, deep, name="MC_CfgLang", workers=4, timeout=1500
         txt = mutate(txt)
     open(os.path.join(wd, mod + ".tla"), "w").write(txt)
     open(os.path.join(wd, mod + ".cfg"), "w").write(MC_CFG)
-    r = run_tlc(wd, mod, workers=workers, timeout=timeout, heap="8g")
+    r = run_tlc(wd, mod, workers=workers, timeout=timeout, heap="4g")
     if mutate:
         return r, None, None
-    out = open(r["out"], errors="replace").read()
     if r["rc"] != 0 or not r["finished"] or r["error"]:
+        with open(r["out"], "rb") as f:
+            f.seek(0, 2)
+            f.seek(max(0, f.tell() - 4000))
+            out = f.read().decode("utf-8", errors="replace")
         if r["violated"]:
             raise ToolError("TLC: %s violated on the specification itself (a rewrite rule is not neutral under Norm); see %s"
                             % (r["violated"], r["out"]))
@@ -636,28 +639,53 @@ def spec_selftest(wd, fam):
 
 
 # ---------------------------------------------------------------------------------- the check
-def crosscheck_transcription(fam, bases, pairs, nest=()):
-    """tools/cfgrw.py must be the same rules as CfgLang.tla: equal one-step successor sets for every family
-    member, and every TLC trail replayed with the Python rules gives TLC's configuration."""
+def scan_pairs(fam, bases, pf, nest=()):
+    """One streaming pass over TLC's pairs: Norm kept by every step (said by TLC, re-read here), and tools/cfgrw.py
+    must be the same rules as CfgLang.tla - equal one-step successor sets for every family member, and every TLC
+    trail replayed with the Python rules gives TLC's configuration.  Returns counts."""
+    one = {}
+    c = {"printed": 0, "depth1": 0, "deeper": 0, "reject": 0, "replayed": 0}
+    for idx, p in iter_pairs(pf):
+        c["printed"] += 1
+        c["reject"] += p["norm"] == "reject"
+        if not p["same"]:
+            raise ToolError("specification: Norm differs after %s" % json.dumps(p["trail"]))
+        if len(p["trail"]) == 1:
+            c["depth1"] += 1
+            one.setdefault(p["b"], set()).add(json.dumps([p["trail"][0], p["cfg"]], sort_keys=True))
+        else:
+            c["deeper"] += 1
+            if cfgrw.apply_trail(fam[p["b"] - 1][1], p["trail"]) != p["cfg"]:
+                raise ToolError("replaying TLC trail %s with tools/cfgrw.py gives another configuration" % json.dumps(p["trail"]))
+            c["replayed"] += 1
     for b, (name, cfg) in enumerate(fam, 1):
         if bases[b]["cfg"] != cfg:
             raise ToolError("family member %s: TLC's copy differs from the Python tree" % name)
-        mine = set(json.dumps([t, c], sort_keys=True) for t, c in cfgrw.successors(cfg, 1, nest=name in nest))
-        tlc = set(json.dumps([p["trail"][0], p["cfg"]], sort_keys=True) for p in pairs if p["b"] == b and len(p["trail"]) == 1)
+        mine = set(json.dumps([t, cf], sort_keys=True) for t, cf in cfgrw.successors(cfg, 1, nest=name in nest))
+        tlc = one.get(b, set())
         if mine != tlc:
             d = sorted(mine ^ tlc)[:2]
             raise ToolError("rewrite transcription differs from the specification on %s: |py|=%d |tlc|=%d e.g. %s"
                             % (name, len(mine), len(tlc), d))
-    n = 0
-    for p in pairs:
-        if len(p["trail"]) >= 2:
-            if cfgrw.apply_trail(fam[p["b"] - 1][1], p["trail"]) != p["cfg"]:
-                raise ToolError("replaying TLC trail %s with tools/cfgrw.py gives another configuration" % json.dumps(p["trail"]))
-            n += 1
-    return n
+    return c
+
+
+def keep_pair(seed, idx, depth, frac):
+    """thorough cap: one-step pairs always, compositions with probability frac, decided by (VERIF_SEED, line number)"""
+    if depth <= 1 or frac >= 1.0:
+        return True
+    import zlib
+    return zlib.crc32(("%d:%d" % (seed, idx)).encode()) / 4294967296.0 < frac
 
 
 def run(tier, seed):
+    try:
+        return run_(tier, seed)
+    finally:
+        kill_workers()
+
+
+def run_(tier, seed):
     res = flow.Result(PID, tier, seed)
     rng = random.Random(seed)
     wd = workdir("c16")
@@ -670,69 +698,98 @@ def run(tier, seed):
     deep = QUICK_DEPTH2 if quick else set(n for n, _ in fam) - DEPTH1_ONLY
     deep3 = set() if quick else THOROUGH_DEPTH3
     nest = NEST_QUICK if quick else NEST_THOROUGH
-    r, bases, pairs = run_spec(wd, fam, 2, deep, timeout=600 if quick else 2400, deep3=deep3, nest=nest)
+    r, bases, pf = run_spec(wd, fam, 2, deep, timeout=600 if quick else 2400, deep3=deep3, nest=nest, wilddeep=WILD_DEEP)
     res.states, res.transitions = r["distinct"] or 0, r["generated"] or 0
-    bad = [p for p in pairs if not p["same"]]
-    if bad:
-        raise ToolError("specification: Norm differs after %s" % json.dumps(bad[0]["trail"]))
-    replayed = crosscheck_transcription(fam, bases, pairs, nest)
+    cnt = scan_pairs(fam, bases, pf, nest)
+    replayed = cnt["replayed"]
     nself = spec_selftest(wd, fam)
     log("[c16] TLC: %d states, %d pairs printed (%d Norm=REJECT on both sides), %.0fs; transcription cross-check ok (%d trails)"
-        % (res.states, len(pairs), sum(1 for p in pairs if p["norm"] == "reject"), r["wall_s"], replayed))
-    # ---- 2. binding of every printed pair
+        % (res.states, cnt["printed"], cnt["reject"], r["wall_s"], replayed))
+    # ---- 2. binding of the printed pairs, streamed in shards (all one-step pairs; compositions up to the cap)
+    frac = 1.0 if cnt["printed"] <= PAIR_CAP else max(0.0, (PAIR_CAP - cnt["depth1"])) / max(1, cnt["deeper"])
+    n_bound = cnt["printed"] if frac >= 1.0 else None
+    beh_total = 3000 if quick else None
+    sample_pairs = []
+    shard_no = [0]
+
+    def flush(batch):
+        if not batch.pairs:
+            return
+        bs = None if beh_total is None else max(1, int(round(beh_total * len(batch.pairs) / float(max(1, cnt["printed"])))))
+        bind(res, st, wd, batch, "tlc%d" % shard_no[0], rng, tier, behaviour_sample=bs, nhist=2 if quick else 4)
+        if not sample_pairs:
+            for i in rng.sample(range(len(batch.pairs)), min(3, len(batch.pairs))):
+                ia, ib, _ = batch.pairs[i]
+                sample_pairs.append({"base": batch.meta[i]["base"], "trail": batch.meta[i]["trail"],
+                                     "original": batch.texts.items[ia], "rewritten": batch.texts.items[ib],
+                                     "norm": batch.meta[i]["norm"]})
+        shard_no[0] += 1
+
     batch = Batch()
-    for p in pairs:
+    for idx, p in iter_pairs(pf):
+        if not keep_pair(seed, idx, len(p["trail"]), frac):
+            continue
         name = fam[p["b"] - 1][0]
         batch.add(bases[p["b"]]["cfg"], p["cfg"], {"src": "tlc", "base": name, "trail": p["trail"], "norm": p["norm"],
                                                     "family": True})
-    bind(res, st, wd, batch, "tlc", rng, tier, behaviour_sample=3000 if quick else None, nhist=2 if quick else 4)
+        if len(batch.pairs) >= SHARD_PAIRS:
+            flush(batch)
+            batch = Batch()
+    flush(batch)
+    del batch
+    if not os.environ.get("KVERIF_KEEP"):
+        os.remove(pf)
+        if os.path.exists(r["out"]):
+            os.remove(r["out"])
     n_tlc_pairs = st["pairs"]
-    sample_pairs = []
-    for i in rng.sample(range(len(batch.pairs)), min(3, len(batch.pairs))):
-        ia, ib, _ = batch.pairs[i]
-        sample_pairs.append({"base": batch.meta[i]["base"], "trail": batch.meta[i]["trail"],
-                             "original": batch.texts.items[ia], "rewritten": batch.texts.items[ib],
-                             "norm": batch.meta[i]["norm"]})
+    log("[c16] bound %d of %d printed pairs in %d shards (compositions kept with probability %.3f)"
+        % (n_tlc_pairs, cnt["printed"], shard_no[0], frac))
     # ---- 3. random tier: whole action grammar, random compositions with the transcribed rules
     ncfg = 80 if quick else 1500
     nvar = 4 if quick else 8
-    batch = Batch()
-    reprint = Batch()
-    gen = {"configs": 0, "unreadable": 0, "steps": 0}
-    for ci in range(ncfg):
-        text, meta = cfggen.gen_config(rng, depth=rng.choice([1, 2, 2, 3]))
-        gen["configs"] += 1
-        try:
-            cfg0 = cfgrw.cfg_of_text(text)
-        except ValueError:
-            gen["unreadable"] += 1
+    gen = {"configs": 0, "unreadable": 0, "steps": 0, "accepted_originals": 0, "originals": 0}
+    per_shard = max(1, SHARD_PAIRS // nvar)
+    for c0 in range(0, ncfg, per_shard):
+        batch = Batch()
+        reprint = Batch()
+        for ci in range(c0, min(ncfg, c0 + per_shard)):
+            text, meta = cfggen.gen_config(rng, depth=rng.choice([1, 2, 2, 3]))
+            gen["configs"] += 1
+            try:
+                cfg0 = cfgrw.cfg_of_text(text)
+            except ValueError:
+                gen["unreadable"] += 1
+                continue
+            # reader/printer self-check: the generator's text and its re-rendered tree must be the same program
+            ia = reprint.texts.add(text, {})
+            ib = reprint.texts.add_cfg(cfg0)
+            reprint.pairs.append((ia, ib, len(reprint.pairs)))
+            for v in range(nvar):
+                cfg, trail = cfg0, []
+                for n in range(1, rng.randint(1, 4) + 1):
+                    s = cfgrw.random_step(cfg, n, rng)
+                    if s is None:
+                        break
+                    trail.append(s[0])
+                    cfg = s[1]
+                if trail:
+                    gen["steps"] += len(trail)
+                    batch.add(cfg0, cfg, {"src": "random", "base": meta["hash"], "trail": trail})
+        _, rp = run_cfgeq(wd, reprint.texts, reprint.pairs, "reprint")
+        for i, o in rp.items():
+            if o["diff"]:
+                raise ToolError("tools/cfgrw.py reader/printer changes a configuration: %s" % json.dumps(o)[:800])
+        if not batch.pairs:
             continue
-        # reader/printer self-check: the generator's text and its re-rendered tree must be the same program
-        ia = reprint.texts.add(text, {})
-        ib = reprint.texts.add_cfg(cfg0)
-        reprint.pairs.append((ia, ib, len(reprint.pairs)))
-        for v in range(nvar):
-            cfg, trail = cfg0, []
-            for n in range(1, rng.randint(1, 4) + 1):
-                s = cfgrw.random_step(cfg, n, rng)
-                if s is None:
-                    break
-                trail.append(s[0])
-                cfg = s[1]
-            if trail:
-                gen["steps"] += len(trail)
-                batch.add(cfg0, cfg, {"src": "random", "base": meta["hash"], "trail": trail})
-    _, rp = run_cfgeq(wd, reprint.texts, reprint.pairs, "reprint")
-    for i, o in rp.items():
-        if o["diff"]:
-            raise ToolError("tools/cfgrw.py reader/printer changes a configuration: %s" % json.dumps(o)[:800])
-    tstat, _ = bind(res, st, wd, batch, "random", rng, tier, behaviour_sample=None, nhist=2 if quick else 4)
-    gen["accepted_originals"] = sum(1 for ia in set(p[0] for p in batch.pairs) if tstat[ia][0] == "ok")
-    gen["originals"] = len(set(p[0] for p in batch.pairs))
-    for i in rng.sample(range(len(batch.pairs)), min(2, len(batch.pairs))):
-        ia, ib, _ = batch.pairs[i]
-        sample_pairs.append({"base": "cfggen " + batch.meta[i]["base"], "trail": batch.meta[i]["trail"],
-                             "original": batch.texts.items[ia], "rewritten": batch.texts.items[ib]})
+        tstat, _ = bind(res, st, wd, batch, "random%d" % c0, rng, tier, behaviour_sample=None, nhist=2 if quick else 4)
+        gen["accepted_originals"] += sum(1 for ia in set(p[0] for p in batch.pairs) if tstat[ia][0] == "ok")
+        gen["originals"] += len(set(p[0] for p in batch.pairs))
+        if c0 == 0:
+            for i in rng.sample(range(len(batch.pairs)), min(2, len(batch.pairs))):
+                ia, ib, _ = batch.pairs[i]
+                sample_pairs.append({"base": "cfggen " + batch.meta[i]["base"], "trail": batch.meta[i]["trail"],
+                                     "original": batch.texts.items[ia], "rewritten": batch.texts.items[ib]})
+        del batch, reprint
     # ---- verdict and evidence
     for k in res.known:
         print("KNOWN-FINDING: property=%s %s" % (PID, k["what"] or k["signature"]))
@@ -741,12 +798,21 @@ def run(tier, seed):
     if st["spec_drift"]:
         log("[c16] specification drift on %d pairs (Norm and the parser disagree about acceptance of BOTH sides): %s"
             % (st["spec_drift"], json.dumps(st["spec_drift_samples"])[:1500]))
+    import resource
+    peak_py = resource.getrusage(resource.RUSAGE_SELF).ru_maxrss // 1024
+    peak_child = resource.getrusage(resource.RUSAGE_CHILDREN).ru_maxrss // 1024
+    log("[c16] peak RSS: python %d MB, largest child process (TLC / harness worker) %d MB" % (peak_py, peak_child))
     cov = {
+        "peak_rss_mb": {"python": peak_py, "largest_child": peak_child},
         "programs": st["pairs"],
         "disagreements_checked": st["disagreements"],
         "samples": sample_pairs,
         "states": res.states, "transitions": res.transitions,
         "pairs_enumerated_by_tlc": n_tlc_pairs,
+        "pairs_printed_by_tlc": cnt["printed"], "pairs_printed_one_step": cnt["depth1"], "pairs_printed_compositions": cnt["deeper"],
+        "pair_cap": PAIR_CAP, "compositions_kept_fraction": round(frac, 4),
+        "binding": "all one-step pairs; compositions all when printed <= pair_cap, else sampled by (VERIF_SEED, line number); "
+                   "shards of %d pairs, <= %d worker processes, <= %d runs per process" % (SHARD_PAIRS, MAX_PROCS, RUNS_PER_PROC),
         "pairs_random_compositions": st["pairs"] - n_tlc_pairs,
         "tlc_trails_replayed_with_python_rules": replayed,
         "wrong_rules_rejected_by_tlc": nself,
